@@ -1,0 +1,37 @@
+#ifndef AI_TOOLBOX_VERIF_HOOKS_HEADER_FILE
+#define AI_TOOLBOX_VERIF_HOOKS_HEADER_FILE
+
+// Verification hooks. Everything in this file is only reachable when the
+// library is compiled with -DAITB_VERIF; normal builds never include it.
+#ifdef AITB_VERIF
+
+#include <functional>
+#include <AIToolbox/Types.hpp>
+#include <AIToolbox/MDP/Types.hpp>
+#include <AIToolbox/POMDP/Types.hpp>
+
+namespace AIToolbox::Verif {
+    /**
+     * @brief Read-only view of the state of an anytime POMDP solver (SARSOP, GapMin)
+     *        at the end of one iteration of its main loop.
+     */
+    struct AnytimeSnapshot {
+        const char * algorithm;
+        unsigned iteration;
+        double lb, ub;
+        const POMDP::VList * lbVList;
+        const MDP::QFunction * ubQ;
+        const POMDP::UpperBoundValueFunction * ubV;
+    };
+
+    /**
+     * @brief Observer called at every point at which the anytime loop could stop.
+     *
+     * Returning false stops the loop there (iteration budget); the solver then
+     * returns the bounds of that iteration exactly as if it had converged.
+     */
+    inline std::function<bool(const AnytimeSnapshot &)> anytimeObserver;
+}
+
+#endif
+#endif
